@@ -32,7 +32,7 @@ def _call(name, string_output, use_file):
 
 def run_obligation(res, name):
     shims.install()
-    ex = Explorer(max_paths=100)
+    ex = Explorer(max_paths=100, path_wall_s=120)
 
     def fn(ex):
         so = fork(ex.fresh_bool("string_output"))
